@@ -650,4 +650,90 @@ theorem C19_gen_linkRules :
     Gen.C19Names.distrLoops = [(0, "ir1"), (1, "ir2")] ∧ Gen.C19Names.copyDirection = "first->second" := by
   decide
 
+/-! ### translator ties for the registration API: `~AutoLinkScope` and `FlatConverter::AutoLink` -/
+
+/-- cells of a node range `(node, begin, end)` under a placement `base` of the nodes -/
+def cellsOfR (base : Nat → Nat) (r : Nat × Nat × Nat) : List Nat :=
+  (List.range (r.2.2 - r.2.1)).map fun k => base r.1 + r.2.1 + k
+
+def cellsOf (base : Nat → Nat) (rs : List (Nat × Nat × Nat)) : List Nat := rs.flatMap (cellsOfR base)
+
+/-- operations of a registered entry `(link, source range, target range)` -/
+def entryOps (base : Nat → Nat) (e : String × (Nat × Nat × Nat) × (Nat × Nat × Nat)) : List Op :=
+  if e.1 = "CopyLink" then expandCopy (base e.2.1.1 + e.2.1.2.1) (base e.2.2.1 + e.2.2.2.1) (e.2.2.2.2 - e.2.2.2.1)
+  else expandDistr (base e.2.1.1 + e.2.1.2.1) 1 (base e.2.2.1 + e.2.2.2.1) (e.2.2.2.2 - e.2.2.2.1)
+
+theorem closeOps_many (s : Nat) (cs : List Nat) (h : cs.length ≠ 1) : closeOps s cs = cs.map (Op.distr s) := by
+  unfold closeOps
+  split
+  · simp at h
+  · rfl
+
+theorem expandDistr_one (s d n : Nat) : expandDistr s 1 d n = ((List.range n).map fun k => d + k).map (Op.distr s) := by
+  simp [expandDistr, List.range_one]
+
+theorem cellsOfR_len (base : Nat → Nat) (r : Nat × Nat × Nat) : (cellsOfR base r).length = r.2.2 - r.2.1 := by
+  simp [cellsOfR]
+
+/-- what `closeOps` (constructor API, `closeScope`) registers is what the translated `~AutoLinkScope` registers:
+a `CopyLink` entry for a single single-index target, otherwise one `One2ManyLink` entry per collected target range -/
+theorem C19_gen_scopeClose (base : Nat → Nat) (src : Nat × Nat × Nat) (targets : List (Nat × Nat × Nat))
+    (hv : ∀ t ∈ targets, t.2.1 < t.2.2) :
+    (Gen.C19Names.scopeClose src targets).flatMap (entryOps base) =
+      closeOps (base src.1 + src.2.1) (cellsOf base targets) := by
+  cases targets with
+  | nil => simp [Gen.C19Names.scopeClose, cellsOf, closeOps]
+  | cons t rest =>
+    cases rest with
+    | nil =>
+      have hlt := hv t (by simp)
+      by_cases h1 : t.2.1 = t.2.2 - 1
+      · have hlen : t.2.2 - t.2.1 = 1 := by omega
+        have hb : (t.2.1 == t.2.2 - 1) = true := by simp [← h1]
+        simp [Gen.C19Names.scopeClose, Gen.C19Names.isSingleIndex, hb, entryOps, cellsOf, cellsOfR, hlen, closeOps, expandCopy]
+      · have hlen : t.2.2 - t.2.1 ≠ 1 := by omega
+        have hne : ¬ (t.2.1 == t.2.2 - 1) = true := by simpa using h1
+        rw [closeOps_many _ _ (by simp [cellsOf, cellsOfR_len]; exact hlen)]
+        simp [Gen.C19Names.scopeClose, Gen.C19Names.isSingleIndex, hne, entryOps, expandDistr_one, cellsOf, cellsOfR, Nat.add_assoc]
+    | cons t2 rest2 =>
+      have h1 := hv t (by simp)
+      have h2 := hv t2 (by simp)
+      have hlen : (cellsOf base (t :: t2 :: rest2)).length ≠ 1 := by
+        simp only [cellsOf, List.flatMap_cons, List.length_append, cellsOfR_len]
+        omega
+      rw [closeOps_many _ _ hlen]
+      simp [Gen.C19Names.scopeClose, entryOps, expandDistr_one, cellsOf, cellsOfR, List.flatMap_map, Nat.add_assoc, List.map_flatMap]
+
+/-- the pending-target list of the constructor API (`create`/`reuse`: `ts ++ [c]`) is the cell view of the translated
+`FlatConverter::AutoLink`: merging a range into the last collected one does not change the collected cells -/
+theorem C19_gen_autoLink (base : Nat → Nat) (ts : List (Nat × Nat × Nat)) (nr : Nat × Nat × Nat)
+    (hv : ∀ t ∈ ts, t.2.1 ≤ t.2.2) (hnr : nr.2.1 ≤ nr.2.2) :
+    cellsOf base (Gen.C19Names.autoLink true ts nr) = cellsOf base ts ++ cellsOfR base nr ∧
+    Gen.C19Names.autoLink false ts nr = ts := by
+  refine ⟨?_, by simp [Gen.C19Names.autoLink]⟩
+  rcases List.eq_nil_or_concat ts with h | ⟨L, last, h⟩
+  · subst h; simp [Gen.C19Names.autoLink, cellsOf]
+  · rw [List.concat_eq_append] at h
+    subst h
+    have hl := hv last (by simp)
+    by_cases hx : Gen.C19Names.extendableBy last nr = true
+    · simp only [Gen.C19Names.extendableBy, Bool.and_eq_true, beq_iff_eq] at hx
+      obtain ⟨hn, he⟩ := hx
+      have hx' : Gen.C19Names.extendableBy last nr = true := by simp [Gen.C19Names.extendableBy, hn, he]
+      simp only [Gen.C19Names.autoLink, if_true, List.getLastD_concat, List.dropLast_concat, hx', Bool.not_true, Bool.or_false]
+      have hemp : (L ++ [last]).isEmpty = false := by simp
+      simp only [hemp, Bool.false_eq_true, if_false, cellsOf, List.flatMap_append, List.flatMap_cons, List.flatMap_nil, List.append_nil,
+        List.append_assoc]
+      congr 1
+      simp only [cellsOfR]
+      have : nr.2.2 - last.2.1 = (last.2.2 - last.2.1) + (nr.2.2 - nr.2.1) := by omega
+      rw [this, List.range_add, List.map_append, List.map_map]
+      congr 1
+      apply List.map_congr_left
+      intro k _
+      simp only [Function.comp, hn]
+      omega
+    · have hx' : Gen.C19Names.extendableBy last nr = false := by simpa using hx
+      simp [Gen.C19Names.autoLink, hx', cellsOf]
+
 end MpVerif.C19
